@@ -19,7 +19,7 @@ func init() {
 		Rule: "case = (type with optional fields - the static default-declaring zoo types Defs/Defs2 nested at field, list-element and map-value position, the control type NoDefs without an initialiser, and random dynamic types -, a value whose optional fields are driven to {equal to the declared default, zero, other}, incl. -0.0, NaN, empty vs nil binary). Encoder oracle: for every struct instance of the output the set of field ids present equals the rule of C10 (equality with the default is Go ==: -0.0 equals a 0.0 default and is omitted, NaN never equals a NaN default and is written). Decoder oracle: a message with a random subset of fields omitted at every level is decoded into a junk-pre-filled top-level destination and compared with the reference decoder (created structs get defaults first, top level never re-initialised, optional pointer nil-ness == presence). distinct = distinct (type shape, present-id set of the top-level struct); non-trivial = some optional field was omitted and some written",
 		Plan: func(tier string) []BuildPlan {
 			if tier == "thorough" {
-				return []BuildPlan{{"plain", 400000}, {"checkptr", 100000}}
+				return []BuildPlan{{"plain", 1200000}, {"checkptr", 300000}}
 			}
 			return []BuildPlan{{"plain", 8000}, {"checkptr", 3000}}
 		},
